@@ -310,6 +310,32 @@ Definition auth_member (a : N * ires) : res * list ev :=
   | (id, IRaise e) => (RExn e, [EvInner id])
   end.
 
+(* ------------------------------------------------------------------ histories on ONE gate instance: the replay cache *)
+(* NonceCache as an insertion-ordered list of nonces (oldest first) with a hard capacity; every history of
+   interest is shorter than the TTL, so expiry is not modelled.  check_and_add: a seen nonce is a replay and
+   changes nothing; a fresh one evicts from the front until there is room, then is appended. *)
+Definition nonce_seen (n : N) (c : list N) : bool := existsb (N.eqb n) c.
+Definition check_and_add (cap : nat) (n : N) (c : list N) : bool * list N :=
+  if nonce_seen n c then (false, c)
+  else (true, skipn (length c + 1 - cap) c ++ [n]).
+
+(* one presentation = (what the verifier answers WITHOUT a replay cache, the token's nonce).
+   verify_proof consults the cache only after every other check passed (tie/T_Gates.v proves this of the
+   regenerated verify_proof), so a presentation the uncached verifier refuses never touches the cache. *)
+Definition hist_step (cap : nat) (m : mode) (c : list N) (p : hdr * N) : gres * list N :=
+  if hdr_verifies (fst p) then
+    let r := check_and_add cap (snd p) c in
+    (proof_gate m (if fst r then HToken None else HToken (Some RReplayed)), snd r)
+  else (proof_gate m (fst p), c).
+
+Fixpoint hist_run (cap : nat) (m : mode) (c : list N) (ps : list (hdr * N)) : list gres * list N :=
+  match ps with
+  | [] => ([], c)
+  | p :: r => let s := hist_step cap m c p in
+              let t := hist_run cap m (snd s) r in
+              (fst s :: fst t, snd t)
+  end.
+
 (* ------------------------------------------------------------------ correspondence entry point *)
 Inductive case :=
 | CaseGateCtor (m : mode)
@@ -323,7 +349,9 @@ Inductive case :=
   (* chain(require_all(gate_1, inner_1), ..., require_all(gate_n, inner_n))(req) around DISTINCT gates, one request:
      each wrapper is given the mode of its own gate and the header as its own gate sees it *)
 | CaseChainMulti (ws : list (mode * hdr * option (N * ires)))
-| CaseChainMultiCustom (ws : list (gres * option (N * ires))).
+| CaseChainMultiCustom (ws : list (gres * option (N * ires)))
+  (* successive requests against one proxy_proof_gate instance with replay_capacity = cap, empty cache first *)
+| CaseHist (cap : nat) (m : mode) (ps : list (hdr * N)).
 
 Definition enc_preason (r : preason) : N :=
   match r with RNoProof => 1 | RMalformed => 2 | RUnknownKid => 3 | RExpired => 4 | RNotYetValid => 5
@@ -367,4 +395,5 @@ Definition run_case (c : case) : list N :=
   | CaseChainRA m h a b => enc_out (chain_run [ra_proof m h (Some a); auth_member b])
   | CaseChainMulti ws => enc_out (chain_run (map (fun w => ra_proof (fst (fst w)) (snd (fst w)) (snd w)) ws))
   | CaseChainMultiCustom ws => enc_out (chain_run (map (fun w => require_all (fst w) (snd w)) ws))
+  | CaseHist cap m ps => flat_map enc_gres (fst (hist_run cap m [] ps))
   end.
